@@ -26,6 +26,11 @@ pub struct StructM {
     pub file: usize,
     pub rename_all: Option<String>,
     pub fields: Vec<FieldM>,
+    /// `pub struct X;`
+    pub unit: bool,
+    /// container attributes without effect on names (`default`, `deny_unknown_fields`) and
+    /// where `rename_all` is written relative to them: "" | "same" | "before" | "after"
+    pub noise: String,
 }
 
 #[derive(Clone, Debug)]
@@ -48,6 +53,8 @@ pub struct EmitM {
     pub event: String,
     /// "lit_str" | "lit_int" | "struct:<Name>" | "param:<index>" | "call"
     pub payload: String,
+    /// `emit_to(<target>, ..)` instead of `emit(..)`
+    pub to: Option<String>,
 }
 
 #[derive(Clone, Debug)]
@@ -58,6 +65,8 @@ pub struct CmdM {
     pub params: Vec<ParamM>,
     pub ret: Option<Ty>,
     pub emits: Vec<EmitM>,
+    /// "#[tauri::command]" | "#[command]"
+    pub attr: String,
 }
 
 #[derive(Clone, Debug)]
@@ -95,9 +104,18 @@ impl Proj {
         }
         for st in &self.structs {
             let s = &mut files[st.file];
+            if st.unit {
+                s.push_str(&format!("#[derive(Debug, Clone, Default, Serialize, Deserialize)]\npub struct {};\n\n", st.name));
+                continue;
+            }
             s.push_str("#[derive(Debug, Clone, Serialize, Deserialize, Validate)]\n");
-            if let Some(r) = &st.rename_all {
-                s.push_str(&format!("#[serde(rename_all = \"{}\")]\n", r));
+            match (st.noise.as_str(), &st.rename_all) {
+                ("same", Some(r)) => s.push_str(&format!("#[serde(deny_unknown_fields, rename_all = \"{}\", default)]\n", r)),
+                ("before", Some(r)) => s.push_str(&format!("#[serde(rename_all = \"{}\")]\n#[serde(default, deny_unknown_fields)]\n", r)),
+                ("after", Some(r)) => s.push_str(&format!("#[serde(default)]\n#[serde(rename_all = \"{}\")]\n", r)),
+                (_, Some(r)) => s.push_str(&format!("#[serde(rename_all = \"{}\")]\n", r)),
+                ("", None) => {}
+                (_, None) => s.push_str("#[serde(default, deny_unknown_fields)]\n"),
             }
             s.push_str(&format!("pub struct {} {{\n", st.name));
             for f in &st.fields {
@@ -142,9 +160,13 @@ impl Proj {
                     other => crate::run::infra_exit(&format!("unknown payload {}", other)),
                 };
                 let _ = k;
-                body.push_str(&format!("    app.emit({}, {}).unwrap();\n", rust_str_lit(&e.event), payload));
+                match &e.to {
+                    Some(target) => body.push_str(&format!("    app.emit_to({}, {}, {}).unwrap();\n", rust_str_lit(target), rust_str_lit(&e.event), payload)),
+                    None => body.push_str(&format!("    app.emit({}, {}).unwrap();\n", rust_str_lit(&e.event), payload)),
+                }
             }
-            s.push_str("#[tauri::command]\n");
+            s.push_str(&c.attr);
+            s.push('\n');
             let ret = c.ret.as_ref().map(|t| format!(" -> {}", t.rust(true))).unwrap_or_default();
             s.push_str(&format!("pub {}fn {}({}){} {{\n{}    todo!()\n}}\n\n", if c.is_async { "async " } else { "" }, c.name, params.join(", "), ret, body));
         }
@@ -354,7 +376,15 @@ pub fn random_project(t: &mut Tape, safe: bool, avoided: &mut u64) -> Proj {
         }
         let mut seen = BTreeSet::new();
         fields.retain(|f| f.skip || seen.insert(wire_name(&f.name, false, f.rename.as_deref(), rename_all.as_deref())));
-        structs.push(StructM { name: name.clone(), file: t.pick(n_files), rename_all, fields });
+        let unit = fields.is_empty() && t.chance(1, 2);
+        let noise = if t.chance(1, 4) { t.choose(&["same", "before", "after"]).to_string() } else { String::new() };
+        if unit {
+            features.insert("has=unit_struct".into());
+        }
+        if !noise.is_empty() {
+            features.insert("has=container_attr_noise".into());
+        }
+        structs.push(StructM { name: name.clone(), file: t.pick(n_files), rename_all, fields, unit, noise });
     }
     // --- commands
     let n_cmds = t.range(1, 6);
@@ -403,7 +433,16 @@ pub fn random_project(t: &mut Tape, safe: bool, avoided: &mut u64) -> Proj {
         }
         let ret = match t.pick(5) {
             0 => None,
-            1 => Some(Ty::Result(Box::new(gen_ty(t, 2, avoided)), Some(Box::new(Ty::Prim("String"))))),
+            1 => {
+                let inner = gen_ty(t, 2, avoided);
+                // `Result<T>` through a project-wide alias as well as the two-argument form
+                if t.chance(1, 3) {
+                    features.insert("has=result_alias".into());
+                    Some(Ty::Result(Box::new(inner), None))
+                } else {
+                    Some(Ty::Result(Box::new(inner), Some(Box::new(Ty::Prim("String")))))
+                }
+            }
             2 => Some(Ty::Result(Box::new(Ty::Prim("()")), Some(Box::new(Ty::Prim("String"))))),
             _ => Some(gen_ty(t, 3, avoided)),
         };
@@ -461,7 +500,11 @@ pub fn random_project(t: &mut Tape, safe: bool, avoided: &mut u64) -> Proj {
                 if !event_pool.contains(&ev) {
                     event_pool.push(ev.clone());
                 }
-                emits.push(EmitM { event: ev, payload });
+                let to = if t.chance(1, 4) { Some(t.choose(&["main", "settings-window", "it's"]).to_string()) } else { None };
+                if to.is_some() {
+                    features.insert("has=emit_to".into());
+                }
+                emits.push(EmitM { event: ev, payload, to });
             }
             // emitting needs a handle named `app`
             if !params.iter().any(|p| matches!(p, ParamM::Injected { name, .. } if name == "app")) {
@@ -477,7 +520,11 @@ pub fn random_project(t: &mut Tape, safe: bool, avoided: &mut u64) -> Proj {
             }
             features.insert("has=events".into());
         }
-        commands.push(CmdM { name, file: t.pick(n_files), is_async: t.bool(), params, ret, emits });
+        let attr = if t.chance(1, 5) { "#[command]" } else { "#[tauri::command]" }.to_string();
+        if attr == "#[command]" {
+            features.insert("has=bare_command_attr".into());
+        }
+        commands.push(CmdM { name, file: t.pick(n_files), is_async: t.bool(), params, ret, emits, attr });
     }
     // fix payload indices robustly: re-point every param payload at a Value parameter
     for c in &mut commands {
